@@ -3,7 +3,7 @@
 (* The value domain a formula can observe (tagged tuples, tag first):      *)
 (*   <<"null">>  <<"bool", b>>  <<"num", neg, digits, exp>>  <<"nan">>     *)
 (*   <<"inf", neg>>  <<"str", bytes>>  <<"arr", <<v...>>>>                 *)
-(*   <<"map", [key |-> v]>>  <<"struct", [Field |-> v], hiddenNames>>      *)
+(*   <<"map", [key |-> v]>>  <<"struct", [Field |-> v], <<hidden names>>>>      *)
 (*   <<"time", ms-digits, offset>>  <<"func", name>>  <<"ctx">>            *)
 (*   <<"other", kind>>                                                     *)
 (* Go int / int32 / int64 / float64 data are numbers and a typed nil       *)
